@@ -207,6 +207,39 @@ func runBatchExtra(raw json.RawMessage, seed int64) (res Result) {
 			}
 		}
 	}
+	// relations between the entries: the same key everywhere, the same signature everywhere, byte-identical couples, one key
+	// object reused with signatures of other keys
+	{
+		sa, sb := w.Scalar("rel-a"), w.Scalar("rel-b")
+		pa, pb := w.SK(sa).PublicKey(), w.SK(sb).PublicKey()
+		ga, gb := crypto.Signature(H.Mul(sa).Compress()), crypto.Signature(H.Mul(sb).Compress())
+		for _, n := range []int{2, 3, 4, 5, 8, 9} {
+			shapes := map[string]func(i int) (crypto.PublicKey, crypto.Signature, bool){
+				"identical couples": func(i int) (crypto.PublicKey, crypto.Signature, bool) { return pa, ga, true },
+				"one key, two signatures": func(i int) (crypto.PublicKey, crypto.Signature, bool) {
+					return pa, []crypto.Signature{ga, gb}[i%2], i%2 == 0
+				},
+				"one signature, two keys": func(i int) (crypto.PublicKey, crypto.Signature, bool) {
+					return []crypto.PublicKey{pa, pb}[i%2], ga, i%2 == 0
+				},
+				"alternating valid couples": func(i int) (crypto.PublicKey, crypto.Signature, bool) {
+					return []crypto.PublicKey{pa, pb}[i%2], []crypto.Signature{ga, gb}[i%2], true
+				},
+				"alternating swapped couples": func(i int) (crypto.PublicKey, crypto.Signature, bool) {
+					return []crypto.PublicKey{pa, pb}[i%2], []crypto.Signature{gb, ga}[i%2], false
+				},
+			}
+			for name, f := range shapes {
+				pks := make([]crypto.PublicKey, n)
+				sgs := make([]crypto.Signature, n)
+				want := make([]bool, n)
+				for i := 0; i < n; i++ {
+					pks[i], sgs[i], want[i] = f(i)
+				}
+				w.checkBatch(&res, fmt.Sprintf("n=%d %s seed %d", n, name, seed), pks, sgs, want, 1)
+			}
+		}
+	}
 	// input errors: every returned boolean is false
 	pk := w.SK(w.Scalar("bk0")).PublicKey()
 	sig := crypto.Signature(H.Mul(w.Scalar("bk0")).Compress())
